@@ -285,7 +285,9 @@ def c06_motion(w, k, op, before, sim, reports):
                 # exhausted by the step
                 need = sum(sim.road_network.link_from_link_id(l.link_id) and l._replace(speed_kmph=sim.road_network.link_from_link_id(l.link_id).speed_kmph).travel_time_seconds
                            for l in broute if l.start != l.end)
-                if need <= delta and energy_of(v) > 0:
+                # (when the time is used up EXACTLY, links that take no whole second may legitimately be left for the next step: the
+                # traversal stops as soon as no time is left.  Only a remaining link that takes time, or time left over, counts.)
+                if need <= delta and energy_of(v) > 0 and (need < delta or any(l.start != l.end and l.travel_time_seconds > 0 for l in route)):
                     out.append(('C06', 'route_completable_in_this_step_not_exhausted', {'vehicle': v.id, 'travel_time_s': need, 'delta_s': delta, 'links_left': len(route)}))
             if len(route) == 0 and len(broute) > 0 and v.geoid != broute[-1].end:
                 out.append(('C06', 'route_exhausted_away_from_destination', {'vehicle': v.id, 'position': v.geoid, 'destination': broute[-1].end,
